@@ -34,6 +34,9 @@ for _T, _f, _u, _n, _es in (("P8E0", "src/p8e0.rs", "u8", 8, 0), ("P16E1", "src/
 # (repo file to append `mod` to, harness file under /verif/harness).  Harness files not listed here are
 # attached to the crate root (src/lib.rs): they only need crate-visible items.
 _SPECIAL = {
+    "g_q8.rs": "src/quire8.rs",
+    "g_q16.rs": "src/quire16.rs",
+    "g_q32.rs": "src/quire32.rs",
 }
 import glob as _glob, os as _os
 MODULES = []
